@@ -220,6 +220,21 @@ def observe(ctx, spec, reqs, keep):
         ctx.violate(f"to_fname() = {fn!r}: {why}", case, key="fname-shape"); return None
     if fn != oracle_fname(c, h):
         ctx.disagree(f"to_fname() = {fn!r} but the documented format gives {oracle_fname(c, h)!r}", case)
+    # ---- identity follows the CONTENT of the object as it is now: ask for hash / file name, change the object in place the way the
+    #      library itself does (filters append to applied_filters; owners edit kwargs), ask again
+    import copy as _copy
+    probe = spec_to_cfg(_copy.deepcopy(spec))     # the edits below must not reach the spec (spec_to_cfg passes the dicts on by reference)
+    probe.stable_hash_cfg(); probe.to_fname()
+    edits = [("applied_filters.append", lambda c_: c_.applied_filters.append(dict(name="collect_generation_meta", args=(), kwargs={}))),
+             ("maze_ctor_kwargs[do_forks]", lambda c_: c_.maze_ctor_kwargs.__setitem__("do_forks", not c_.maze_ctor_kwargs.get("do_forks", True))),
+             ("endpoint_kwargs[deadend_end]", lambda c_: c_.endpoint_kwargs.__setitem__("deadend_end", not c_.endpoint_kwargs.get("deadend_end", False)))]
+    for label, ed in (edits if ctx.evaluations % 4 == 0 else []):
+        ed(probe)
+        twin = MazeDatasetConfig.load(json.loads(json.dumps(probe.serialize())))      # same content, never asked before
+        if probe.stable_hash_cfg() != twin.stable_hash_cfg() or probe.to_fname() != twin.to_fname():
+            ctx.violate(f"after an in-place change of the configuration ({label}) its hash / file name ({probe.stable_hash_cfg() % 10**5}, {probe.to_fname()!r}) "
+                        f"are not those of an identical-content configuration ({twin.stable_hash_cfg() % 10**5}, {twin.to_fname()!r}) for {spec}",
+                        dict(case, edit=label), key="hash-stale-after-edit"); return None
     # ---- model request
     info = [[k, py_enc(v)] for k, v in shrink_ser(ser)["maze_ctor"].items() if k != "__name__"]
     reqs.append(dict(op="C18.roundtrip", cfg=cfg_wire(c), info=info))
